@@ -24,11 +24,15 @@ From V Require Export CF.Syntax.
 
 Inductive completion := Normal | Brk (l : option N) | Cont (l : option N) | Ret | Thr.
 
-Definition e_throws (e : expr) : bool := match e with ECall _ => true | _ => false end.
 Definition oe_throws (o : option expr) : bool := match o with Some e => e_throws e | None => false end.
 Definition may_true (c : cond) : bool := match c with CFalse | CSeq _ false => false | _ => true end.
 Definition may_false (c : cond) : bool := match c with CTrue | CSeq _ true | CUnkTrue => false | _ => true end.
 Definition cond_throws (c : cond) : bool := match c with COpaque e | CSeq e _ => e_throws e | _ => false end.
+
+(* `for (i; c; u) b`: the test (none = true); the update is evaluated after the body (also after `continue`) and may
+   throw, then the loop goes on: as a post-condition it is `(u, true)` *)
+Definition for_pre (c : option cond) : cond := match c with Some c => c | None => CTrue end.
+Definition upd_post (u : option expr) : cond := match u with Some e => CSeq e true | None => CTrue end.
 
 (* Every loop is `loop { if (!pre) break; body; if (!post) break; }` *)
 Definition opaque := COpaque (EIdent 0).
@@ -36,8 +40,7 @@ Definition loop_shape (s : stmt) : option (cond * stmt * cond) :=
   match s with
   | SWhile _ c b => Some (c, b, CTrue)
   | SDoWhile _ b c => Some (CTrue, b, c)
-  | SFor _ (Some c) b => Some (c, b, CTrue)
-  | SFor _ None b => Some (CTrue, b, CTrue)
+  | SFor _ _ c u b => Some (for_pre c, b, upd_post u)
   | SForIn _ b | SForOf _ b | SForHead _ _ _ _ _ b => Some (opaque, b, CTrue)
   | _ => None
   end.
@@ -83,6 +86,8 @@ Inductive exec : list N -> stmt -> completion -> Prop :=
 | X_ifelse_thr ls p c a b : cond_throws c = true -> exec ls (SIfElse p c a b) Thr
 | X_ifelse_then ls p c a b k : may_true c = true -> exec [] a k -> exec ls (SIfElse p c a b) k
 | X_ifelse_else ls p c a b k : may_false c = true -> exec [] b k -> exec ls (SIfElse p c a b) k
+(* the init expression of a `for`, evaluated once before the loop *)
+| X_for_init_thr ls p e c u b : e_throws e = true -> exec ls (SFor p (Some e) c u b) Thr
 (* loops: s = loop { pre; b; post } *)
 | X_loop_pre_thr ls s pre b post : loop_shape s = Some (pre, b, post) ->
     cond_throws pre = true -> exec ls s Thr
